@@ -230,12 +230,81 @@ def write_evidence(prop, cfg, tier, cov, wall, violations, assumptions):
     os.replace(p + ".tmp", p)
 
 
+def run_libfuzzer_stage(prop, stage, tier, env, work, merged, known_sigs, handle_failure):
+    """Coverage-guided stage: N libFuzzer workers over the byte-encoded script format."""
+    import glob
+    drv = stage["driver"]
+    lib = build_lib(drv["flavour"])
+    exe = build_driver(drv, lib)
+    rdrv = stage["replay_driver"]
+    rexe = build_driver(rdrv, build_lib(rdrv["flavour"]))
+    t = stage[tier]
+    nproc = min(t.get("procs", 4), JOBS)
+    procs = []
+    for i in range(nproc):
+        cdir = os.path.join(work, "corpus-%d" % i)
+        os.makedirs(cdir, exist_ok=True)
+        sdir = os.path.join(VERIF, "corpus", prop, "seed")
+        if i % 2 == 0 and os.path.isdir(sdir):  # every second worker starts from the committed seed corpus, the others from nothing
+            for fn in os.listdir(sdir):
+                shutil.copy(os.path.join(sdir, fn), cdir)
+        seed = SEED * 1000 + i + 1
+        outp = os.path.join(work, "fuzz-%d.json" % i)
+        penv = dict(env, VERIF_FUZZ_OUT=outp, VERIF_FUZZ_PROP=prop)
+        cmd = [exe, "-runs=%d" % t["runs"], "-seed=%d" % seed, "-max_len=%d" % t.get("max_len", 1024), "-timeout=60", "-rss_limit_mb=3000",
+               "-print_final_stats=1", "-artifact_prefix=%s/art-%d-" % (work, i), "-entropic=0", cdir]
+        procs.append((cmd, penv, outp, i))
+    with ThreadPoolExecutor(max_workers=nproc) as ex:
+        results = list(ex.map(lambda p: run_proc(p[0], p[1], t.get("timeout", 900 if tier == "quick" else 7200)), procs))
+    stage_eval = 0
+    for (cmd, penv, outp, i), (rc, out, wall, timed_out) in zip(procs, results):
+        if os.path.exists(outp):
+            try:
+                res = json.load(open(outp))
+                merged["evaluations"] += res["evaluations"]
+                stage_eval += res["evaluations"]
+                merged["nontrivial"].update("fz" + h for h in res["nontrivial_hashes"])
+                for k, v in res["classes"].items():
+                    merged["classes"][k] = merged["classes"].get(k, 0) + v
+                merged["classes"]["fuzz:failures-charged-to-other-properties(ignored-here)"] = merged["classes"].get("fuzz:failures-charged-to-other-properties(ignored-here)", 0) + res.get("other_property_failures", 0)
+                for smp in res["samples"]:
+                    if len(merged["samples"]) < 6:
+                        merged["samples"].append("[libFuzzer-decoded script]\n" + smp)
+            except Exception:
+                pass
+        if timed_out:
+            merged["inconclusive"] += 1
+            continue
+        for art in glob.glob("%s/art-%d-*" % (work, i)):
+            base = os.path.basename(art)
+            if "crash-" not in base and "leak-" not in base:
+                merged["inconclusive"] += 1
+                merged["classes"]["fuzz:" + base.split("-")[2] + "-artifact(load-noise)"] = merged["classes"].get("fuzz:" + base.split("-")[2] + "-artifact(load-noise)", 0) + 1
+                continue
+            r = subprocess.run([exe], env=dict(env, VERIF_TOTEXT=art), stdout=subprocess.PIPE, stderr=subprocess.DEVNULL, universal_newlines=True)
+            text = r.stdout
+            sig = crash_signature(out)
+            what = crash_summary(out)
+            for line in out.splitlines():
+                if line.startswith("VERIF-FUZZ-FAILURE"):
+                    sig = line.split()[1].rstrip(":")
+                    what = line[len("VERIF-FUZZ-FAILURE "):]
+            rstage = dict(stage, driver=rdrv)
+            if sig in known_sigs:
+                merged["excluded"].setdefault(sig, {"count": 0, "example": text[:300]})["count"] += 1
+            else:
+                handle_failure(rstage, rexe, sig, what, text, out if "VERIF-FUZZ-FAILURE" not in out else None)
+    merged["stages"].append({"driver": drv["name"], "flavour": drv["flavour"], "processes": nproc, "evaluations": stage_eval, "engine": "libFuzzer"})
+
+
 def main():
     if len(sys.argv) >= 2 and sys.argv[1] == "--build-all":
         flav = set()
         for prop, cfg in CHECKS.items():
             for st in cfg["stages"]:
                 flav.add(st["driver"]["flavour"])
+                if "replay_driver" in st:
+                    flav.add(st["replay_driver"]["flavour"])
         libs = {f: build_lib(f) for f in sorted(flav)}
         seen = set()
         for prop, cfg in CHECKS.items():
@@ -337,6 +406,11 @@ def main():
 
     for stage in cfg["stages"]:
         if tier not in stage.get("tiers", ("quick", "thorough")):
+            continue
+        if stage.get("type") == "libfuzzer":
+            run_libfuzzer_stage(prop, stage, tier, env, work, merged, known_sigs, handle_failure)
+            if violations and tier == "quick":
+                break
             continue
         drv = stage["driver"]
         lib = build_lib(drv["flavour"])
